@@ -43,7 +43,7 @@ func zzC08Setup() (*zzEnv, *Manager, *zzDA, uint64, int, []bool) {
 	zzsym.Assume(I >= 1 && I <= 1<<40)
 	W := zzsym.U64("W")
 	zzsym.Assume(W >= I && W <= 1<<41)
-	n := 1 + zzsym.Pick("n", 3)
+	n := 1 + zzsym.Pick("n", zzC08MaxPending)
 	e := zzNewEnv(I)
 	ne := make([]bool, n)
 	for i := range ne {
